@@ -948,7 +948,7 @@ func writeEvidence(c *checkCfg, b *build, a *agg, nviol int, wall, buildS float6
 		if len(tr) > 120 {
 			tr = tr[:120]
 		}
-		samples = append(samples, map[string]interface{}{"run_seed": s.RunSeed, "plan": s.Plan, "schedule_len": len(s.Schedule), "schedule_head": head(s.Schedule, 60), "trace_head": tr})
+		samples = append(samples, map[string]interface{}{"run_seed": s.RunSeed, "plan": abridgePlan(s.Plan), "schedule_len": len(s.Schedule), "schedule_head": head(s.Schedule, 60), "trace_head": tr})
 	}
 	if len(samples) == 0 {
 		samples = append(samples, map[string]interface{}{"note": "no non-trivial run in this batch"})
@@ -1002,6 +1002,42 @@ func writeEvidence(c *checkCfg, b *build, a *agg, nviol int, wall, buildS float6
 	if err := os.WriteFile(filepath.Join(dir, c.prop+".json"), data, 0o644); err != nil {
 		fatal2("writing evidence: %v", err)
 	}
+}
+
+// abridgePlan keeps a sample readable: long lists are cut (the cut is stated in place).
+func abridgePlan(raw json.RawMessage) interface{} {
+	var p map[string]interface{}
+	if err := json.Unmarshal(raw, &p); err != nil {
+		return raw
+	}
+	cut := func(v interface{}, n int) interface{} {
+		l, ok := v.([]interface{})
+		if !ok || len(l) <= n {
+			return v
+		}
+		return append(l[:n:n], fmt.Sprintf("... %d more", len(l)-n))
+	}
+	p["ops"] = cut(p["ops"], 40)
+	p["store_faults"] = cut(p["store_faults"], 40)
+	for _, k := range []string{"scripts", "get_faults"} {
+		if m, ok := p[k].(map[string]interface{}); ok {
+			keys := make([]string, 0, len(m))
+			for kk := range m {
+				keys = append(keys, kk)
+			}
+			sort.Strings(keys)
+			out := map[string]interface{}{}
+			for i, kk := range keys {
+				if i >= 6 {
+					out["..."] = fmt.Sprintf("%d more keys", len(keys)-6)
+					break
+				}
+				out[kk] = cut(m[kk], 4)
+			}
+			p[k] = out
+		}
+	}
+	return p
 }
 
 func head(s []string, n int) []string {
